@@ -417,6 +417,19 @@ class Recognizer:
         return out
 
 
+def text_regexps(grammar, bnf, as_bytes=False):
+    """Regexp source per terminal name (named terminals, anonymous literals) for TextInput."""
+    out = {}
+    for t in grammar.terms:
+        out[t.name] = t.regexp()
+    for (text, flags), name in bnf.anon.items():
+        body = re.escape(text)
+        out[name] = '(?%s:%s)' % (flags, body) if flags else body
+    if as_bytes:
+        out = {k: v.encode('utf-8') for k, v in out.items()}
+    return out
+
+
 def member(bnf, inp, start=None):
     return Recognizer(bnf, inp).member(start)
 
